@@ -20,6 +20,42 @@ def rows(prefix_r2):
         if 'after ' in fd or 'after ' in note: status += " (after strengthening)"
         out.append(f"| {m['id']} | {m['what'][:105].replace('|','/')} | {m['needs_to_manifest'][:110].replace('|','/')} | {status} | {det.get('wall_s_incl_build','')} s |")
     return "\n".join(out)
+def power_rows():
+    out=[]
+    for prop in ('C01','C02'):
+        fp=f'/verif/power/{prop}.quick.json'
+        if not os.path.exists(fp): continue
+        t=json.load(open(fp))
+        for k,r in t['rows'].items():
+            out.append(f"| {prop} | {k} | {r['cells']} | {r['nontrivial']} | {r['mass_defect_detected']}/{r['mass_defect_run']} | {r['scale_defect_detected']}/{r['scale_defect_run']} | {r['off_by_one_detected']}/{r['off_by_one_run']} | {'; '.join(r['missed_examples'][:2])} |")
+    return "\n".join(out)
+appe=f'''
+## Appendix E — power audit of the law checks (planted defects on top of the real samplers)
+
+`verif power C01|C02 [--tier t] [--max K]` re-runs the *plans of the check
+itself* (same grid / shape-lattice / random cells, same sample sizes, same
+rule and slack) with a defect planted on top of the real rand_distr sampler,
+and records per family × float type how many non-trivial cells detect it
+(tables in `power/<id>.<tier>.json`, K = 40 cells per row, every k-th plan so
+the origins stay mixed). Defects: **mass** — with probability 2 % a draw at
+or below the reference median is redrawn until above it (moves 1 % of the
+mass); **scale** — continuous only, x -> med + 1.03 (x − med); **off1** —
+discrete only, x -> x + 1 (informational: invisible by construction when
+every pmf value is below the resolution). The command exits 2 when a row
+detects fewer than 90 % of the mass or scale defects or has no non-trivial
+cell. It is a diagnostic of the machinery, not a check of a property; it is
+what exposed the vacuous NIG reference and the Pert slack bug (§0).
+
+| check | family:float | cells | non-trivial | mass detected | scale detected | off-by-one detected | examples missed |
+|---|---|---|---|---|---|---|---|
+{power_rows()}
+
+Reading: the remaining misses are f32 cells whose stated slack legitimately
+exceeds the defect — Poisson<f32> with λ ≥ 1e4 (ρ_rel = 16·ε·λ ≈ 2–5 %: the
+sampler's own f32 arithmetic on k·ln λ is that inexact), and f32 cells whose
+range is a few hundred ulps wide (Pert(999, 1000), Frechet with |location| ≫
+scale), where the output-rounding allowance δ dominates.
+'''
 appd=f'''
 ## Appendix D — seeded changes and which check catches which
 
@@ -121,13 +157,13 @@ float-tree assertion reached through a random stream instead of a lattice
 word — the finding's signature now keys on the assertion text instead of the
 trigger class. No other run printed a VIOLATION.
 
+{appe}
 ## Status / next steps (for a later session)
 
 * All 15 properties have quick and thorough commands; thorough tiers add the
   libFuzzer campaigns (16 parallel jobs) for C03/C05 (`stream_case`), C04
   (`ctor_case`), C09 (`tree_history`), C14 (`schedule`).
-* Ideas not done: tree mutation actions inside C14 schedules; a per-family
-  power table (smallest detectable law deviation per tier); Hypergeometric
+* Ideas not done: tree mutation actions inside C14 schedules; Hypergeometric
   H2PE precision at N >= 2^53; Poisson MAX_LAMBDA; a cancellation-free Zipf
   near s = 1 and InverseGaussian<f32> (both blocked by value_stability).
 '''
